@@ -33,7 +33,31 @@ pub struct Tier {
     pub min_budget_s: u64,
 }
 
+pub fn overflow_checks_on() -> bool {
+    std::panic::catch_unwind(|| {
+        let x: u8 = std::hint::black_box(255);
+        std::hint::black_box(x + std::hint::black_box(1))
+    })
+    .is_err()
+}
+
 pub fn tier(name: &str) -> Tier {
+    if name == "ovf" {
+        // the reduced pass run by the overflow-checks build on behalf of the thorough tier
+        return Tier {
+            miri: MiriCfg { seeds: 0, calls: 0, threads: 0, timeout_s: 0 },
+            name: "ovf",
+            sizes: PoolSizes { gen_per_ev: 600, cross_texts: 110, malformed_per_ev: 60, extreme_per_ev: 100, sibling_families_per_ev: 40, pair_samples_per_ev: 120, all_pairs: false, max_corpus: 300 },
+            recheck_every: 0,
+            det_seeds: 40,
+            short_runs: 300_000,
+            short_budget_s: 75,
+            wide_runs: 3_000,
+            long_runs: 32,
+            long_calls: 8_000,
+            min_budget_s: 40,
+        };
+    }
     if name == "thorough" {
         Tier {
             miri: MiriCfg { seeds: 48, calls: 80, threads: 3, timeout_s: 1500 },
@@ -498,6 +522,8 @@ pub fn change_hints(repo: &str, verif: &str) -> ChangeHints {
 }
 
 pub struct CheckOpts {
+    pub evidence_out: Option<String>,
+    pub ovf_bin: Option<String>,
     pub tier: String,
     pub seed: u64,
     pub repo: String,
@@ -584,11 +610,13 @@ pub fn write_replay_file(
 ) -> String {
     let dir = format!("{}/replays", verif);
     let _ = std::fs::create_dir_all(&dir);
-    let path = format!("{}/C16-{}.json", dir, tag);
+    let ovf = overflow_checks_on();
+    let path = format!("{}/C16-{}{}.json", dir, if ovf { "ovf-" } else { "" }, tag);
     let mut v = json!({
         "property": "C16",
         "format": "sc_sim replay v1: threads = per client the calls in order; switches = [thread, call_no, tick, to_thread] in global order (tick 0 = boundary before call_no; call_no = number of calls = thread exit); start = first thread to run; when the list runs out threads finish in index order; clock_jumps = per thread [call_no, monotonic_jump_ns, wall_clock_jump_ns] applied to the run's virtual clock at the boundary before that call; positions count source ticks and, when granularity is basic_block, block ticks of the instrumented build",
         "granularity": if crate::tick::bb_guards() > 0 { "basic_block" } else { "source_tick" },
+        "build": if ovf { "overflow_checks" } else { "release" },
         "seed": seed, "tier": tier, "origin": origin,
         "violation": res.rec.get("violation").cloned().unwrap_or(Value::Null),
         "event_log_hash": res.hash(),
@@ -705,7 +733,7 @@ pub fn check(o: &CheckOpts) -> i32 {
     }
 
     // ambient perturbation: same calls, exec'd process (new ASLR layout, pid, time), scrambled environment, other cwd
-    let amb = oracle::ambient_recheck(&pool, if t.name == "thorough" { 4 } else { 12 }, &format!("{}/.work", o.verif), w, o.seed);
+    let amb = oracle::ambient_recheck(&pool, if t.name == "thorough" { 4 } else if t.name == "ovf" { 0 } else { 12 }, &format!("{}/.work", o.verif), w, o.seed);
     if amb.ran {
         println!("ambient recheck: {} calls re-evaluated in an exec'd process with scrambled environment, {} compared, {} differ", amb.calls, amb.compared, amb.mismatches.len());
     } else {
@@ -880,7 +908,39 @@ pub fn check(o: &CheckOpts) -> i32 {
     }
 
     // ---- supplementary Miri pass (last: it uses helper threads, and nothing forks after this point)
-    let mo = if std::env::var("VERIF_NO_MIRI").is_ok() {
+    // ---- second pass of the thorough tier: the same search by the overflow-checks build (debug arithmetic
+    //      semantics: every wrap is a panic, so many more panicking histories)
+    let mut ovf_summary = json!({"ran": false, "reason": "only run by the thorough tier"});
+    let mut ovf_violations = 0;
+    if let Some(bin) = &o.ovf_bin {
+        let part = format!("{}/.work/C16.ovf.json", o.verif);
+        let _ = std::fs::create_dir_all(format!("{}/.work", o.verif));
+        let _ = std::fs::remove_file(&part);
+        let st = std::process::Command::new(bin)
+            .args(["check", "--tier", "ovf", "--seed", &o.seed.to_string(), "--verif", &o.verif, "--repo", &o.repo, "--evidence-out", &part, "--workers", &w.to_string()])
+            .env("VERIF_NO_MIRI", "1")
+            .stdin(std::process::Stdio::null())
+            .status();
+        let code = st.ok().and_then(|s| s.code()).unwrap_or(-1);
+        match std::fs::read_to_string(&part).ok().and_then(|s| serde_json::from_str::<Value>(&s).ok()) {
+            Some(v) => {
+                ovf_summary = json!({
+                    "ran": true, "exit_code": code, "overflow_checks": v["coverage"]["overflow_checks_build"],
+                    "evaluations": v["coverage"]["evaluations"], "distinct_nontrivial": v["coverage"]["distinct_nontrivial"],
+                    "violations": v["violations"], "fault_kinds_fired": v["coverage"]["fault_kinds_fired"],
+                    "pool": {"kept": v["coverage"]["pool"]["kept"], "panic": v["coverage"]["pool"]["panic"], "err": v["coverage"]["pool"]["err"]},
+                    "simulated_time": v["coverage"]["simulated_time"], "wall_s": v["wall_s"], "replay_files": v["coverage"]["replay_files"],
+                });
+                if code == 1 {
+                    ovf_violations = v["violations"].as_i64().unwrap_or(1).max(1);
+                }
+            }
+            None => {
+                ovf_summary = json!({"ran": false, "reason": format!("the overflow-checks build produced no evidence (exit code {})", code)});
+            }
+        }
+    }
+    let mo = if std::env::var("VERIF_NO_MIRI").is_ok() || t.miri.seeds == 0 {
         None
     } else {
         let text = crate::miri::miri_calls(&pool, o.seed, t.miri.calls);
@@ -923,7 +983,7 @@ pub fn check(o: &CheckOpts) -> i32 {
     let wall = t0.elapsed().as_secs_f64();
 
     // ---- verdict
-    let mut new_violations = 0;
+    let mut new_violations: i64 = ovf_violations;
     for fd in &findings {
         match &fd.known {
             Some(what) => println!("KNOWN-FINDING: property=C16 {} (replay={})", what, fd.file),
@@ -953,7 +1013,7 @@ pub fn check(o: &CheckOpts) -> i32 {
     });
     let ev = json!({
         "property_id": "C16",
-        "tier": t.name,
+        "tier": if t.name == "ovf" { "thorough" } else { t.name },
         "seed": o.seed,
         "level": "exploration",
         "wall_s": (wall * 100.0).round() / 100.0,
@@ -996,6 +1056,8 @@ pub fn check(o: &CheckOpts) -> i32 {
                              "function_buckets": ix.fn_buckets.len(), "preferred_buckets": ix.hint_buckets.len(),
                              "note": "direction only: 70% of the function-themed runs (40% of short/wide runs are themed) draw their theme from the preferred buckets; on an unchanged tree there is no diff and no direction"},
             "granularity": if crate::tick::bb_guards() > 0 { format!("basic_block ({} instrumented block edges in the library crates) + source ticks", crate::tick::bb_guards()) } else { "source ticks only (block instrumentation not available)".to_string() },
+            "overflow_checks_build": overflow_checks_on(),
+            "second_pass_overflow_checks_build": ovf_summary,
             "raw_violating_runs": raw_violations,
             "miri_pass": mo.as_ref().map(|m| m.to_json()).unwrap_or(json!({"ran": false, "reason": "disabled by VERIF_NO_MIRI"})),
             "replay_files": findings.iter().map(|f| json!({"file": f.file, "evaluator": f.class.0, "kind": f.class.1, "known": f.known, "replay_confidence": f.confidence})).collect::<Vec<_>>(),
@@ -1012,7 +1074,7 @@ pub fn check(o: &CheckOpts) -> i32 {
             "sampling, not enumeration: a clean batch is evidence, not proof",
         ],
     });
-    let evp = format!("{}/evidence/C16.json", o.verif);
+    let evp = o.evidence_out.clone().unwrap_or_else(|| format!("{}/evidence/C16.json", o.verif));
     let _ = std::fs::create_dir_all(format!("{}/evidence", o.verif));
     if let Err(e) = std::fs::write(&evp, serde_json::to_string_pretty(&ev).unwrap_or_default()) {
         eprintln!("HARNESS-ERROR: cannot write {}: {}", evp, e);
